@@ -126,6 +126,10 @@ def step (c : Cfg) (s : Store) : Op → Store × Out × List Ev
     ({ s with msgs := s.msgs.filter (fun m => !inBox b m) }, .ok, (listing s b).map evOf)
   | .visit => (s, .boxes ((boxNames s.msgs).map (listing s)), [])
 
+/-- `VisitMailboxes` with a visitor that says "stop" (returns `false`) at the `k`-th non-empty mailbox it is shown (`k ≥ 1`): the mailboxes it gets to
+    see are the first `k` of the walk and nothing after them. -/
+def visitUntil (s : Store) (k : Nat) : List (List Msg) := ((boxNames s.msgs).map (listing s)).take k
+
 /-- run a history; collects outputs and events per operation -/
 def run (c : Cfg) : Store → List Op → Store × List (Out × List Ev)
   | s, [] => (s, [])
